@@ -77,7 +77,73 @@ def gen_cases(tier, seed):
     for k, order in enumerate((("request:enc-key", "encrypt", "request:enc-key", "request:sign-key"), ("encrypt", "request:enc-key", "request:sign-key"),
                                ("request:sign-key", "encrypt", "request:enc-key", "request:third-key"), ("encrypt", "encrypt", "request:third-key", "request:enc-key"))):
         cases.append({"id": "idp-side-history-%d" % k, "sig": ["idp-side-history", k], "kind": "idp-history", "order": list(order)})
+    # one SP shared by threads that verify messages of different issuers at once (yields injected); afterwards - and meanwhile - a message
+    # naming one issuer but signed with another known entity's key must still be refused, and genuine ones accepted
+    for k in range(3 if tier == "quick" else 24):
+        cases.append({"id": "threads-%d" % k, "sig": ["threads", k], "kind": "threads", "k": k, "opt": [1, 0, "default"][k % 3],
+                      "level": ["response", "assertion"][k % 2], "rounds": 8 if tier == "quick" else 30})
     return cases
+
+
+def run_threads_case(case, ctx):
+    from vlib import interleave
+    (sp, spmd) = _sp(ctx, case["opt"], case["level"])
+    names = ["A-signing", "B-signing+encryption", "E-two-signing"]
+    keyof = {"A-signing": 0, "B-signing+encryption": 3, "E-two-signing": 7}
+
+    def message(issuer, key):
+        idp = _idp(ctx, issuer, spmd)
+        xml = fed.issue(idp, {"givenName": ["Ann"]}, sign_response=False, sign_assertion=False)
+        d = xk.Doc(xml)
+        if case["level"] == "response":
+            return xk.sign_element(xml, xk.SAMLP, "Response", d.root.attrs["ID"], fed.key(key)[0], "rsa-sha256", None)
+        return xk.sign_element(xml, xk.SAML, "Assertion", d.find(xk.SAML, "Assertion")[0].attrs["ID"], fed.key(key)[0], "rsa-sha256", None)
+    genuine = {n: message(n, keyof[n]) for n in names}
+    forged = {(n, m): message(n, keyof[m]) for n in names for m in names if n != m}
+    seen = {"genuine_accepted": 0, "genuine_rejected": [], "forged_accepted": [], "forged_rejected": 0}
+
+    def loop(n):
+        def run():
+            for _ in range(case["rounds"]):
+                r, e = fed.deliver(sp, genuine[n], {"id-req-1": "/"})
+                if r is None:
+                    seen["genuine_rejected"].append((n, repr(e)[:120]))
+                else:
+                    seen["genuine_accepted"] += 1
+        return run
+
+    def forger():
+        for _ in range(case["rounds"]):
+            for (n, m), xml in sorted(forged.items()):
+                r, e = fed.deliver(sp, xml, {"id-req-1": "/"})
+                if r is not None:
+                    seen["forged_accepted"].append((n, m))
+                else:
+                    seen["forged_rejected"] += 1
+    res, errs, stats = interleave.run_threads([loop(n) for n in names] + [forger], "%s/%s" % (ctx.seed, case["id"]), p=0.05, timeout=600)
+    # and once more when everything is quiet again (state left behind by the concurrent phase)
+    for (n, m), xml in sorted(forged.items()):
+        r, e = fed.deliver(sp, xml, {"id-req-1": "/"})
+        if r is not None:
+            seen["forged_accepted"].append((n, m, "afterwards"))
+        else:
+            seen["forged_rejected"] += 1
+    for n in names:
+        r, e = fed.deliver(sp, genuine[n], {"id-req-1": "/"})
+        if r is None:
+            seen["genuine_rejected"].append((n, "afterwards " + repr(e)[:120]))
+    viol = []
+    if seen["forged_accepted"]:
+        viol.append({"key": "C03/accepted-under-key-not-held-for-issuer", "what": "one SP shared by four threads (level %s, only_use_keys_in_metadata=%s): message naming issuer %s but signed "
+                     "with the key of %s accepted (%d such acceptances, e.g. %r)" % (case["level"], case["opt"], seen["forged_accepted"][0][0], seen["forged_accepted"][0][1],
+                                                                                 len(seen["forged_accepted"]), seen["forged_accepted"][:3])})
+    if seen["genuine_rejected"]:
+        viol.append({"key": "C03/valid-signature-under-issuers-metadata-key-rejected", "what": "one SP shared by four threads: genuine message refused %d time(s), e.g. %r" % (
+            len(seen["genuine_rejected"]), seen["genuine_rejected"][:2])})
+    return {"outcome": "violations" if viol else "held", "nontrivial": seen["forged_rejected"] > 0 and seen["genuine_accepted"] > 0, "violations": viol,
+            "counters": {"threads_forged_rejected": seen["forged_rejected"], "threads_genuine_accepted": seen["genuine_accepted"], "yields_injected": stats["yields_injected"],
+                         "accepted": seen["genuine_accepted"]},
+            "sigs": [["threads", case["k"]]], "evals": 4 * case["rounds"]}
 
 
 def run_idp_history(case, ctx):
@@ -146,6 +212,8 @@ def run_case(case, ctx):
     import saml2_tophat.sigver as sv
     if case.get("kind") == "idp-history":
         return run_idp_history(case, ctx)
+    if case.get("kind") == "threads":
+        return run_threads_case(case, ctx)
     (sp, spmd) = _sp(ctx, case["opt"], case["level"])
     opt_on = bool(case["opt"])          # "default" counts as on
     idp = _idp(ctx, case["issuer"], spmd)
